@@ -286,7 +286,9 @@ def pollConn (fuel : Nat) (c : Conn) : Conn × PRes :=
                 let hs : HState := { ops := ops, propagate := prop }
                 pollConn fuel { c with phase := .handler r hs, scripts := scripts, env := env' }
     | .handler r h =>
-      match handlerPoll (1000 + c.env.tr.input.length * 4 + (c.env.segs.map (·.2.length)).sum * 4) r h c.env with
+      -- model fuel for one poll of the handler: covers what is still to arrive AND what the stream
+      -- parser may already hold (`readAll` spends one unit per 64 buffered bytes)
+      match handlerPoll (1000 + c.env.tr.input.length * 4 + (c.env.segs.map (·.2.length)).sum * 4 + r.sp.cap * 4) r h c.env with
       | (r, h, e, .pending) => ({ c with phase := .handler r h, env := e }, .pending)
       | (_, _, e, .panic s) => ({ c with env := e }, .panic s)
       | (r, h, e, .done res) =>
